@@ -22,23 +22,23 @@ NA = {
 CHECKS = {
     "C07": dict(level="fault_enumeration", ref="DESIGN.md section 3 (C07)",
         technique="deterministic simulation: crash-prefix enumeration + seeded storage-fault injection at the read seam (SimDisk), step-budget liveness",
-        text="Every line-boundary crash prefix of every corpus file and of iodata-written files is enumerated (thorough) or sampled (quick), plus seeded storage faults (byte cuts, torn tails, lost/duplicated/swapped blocks and lines, bit flips, field overwrites, misnamed files); each faulted file is loaded through the real API on SimDisk and the outcome, the exception contract, line numbers, handle table, shapes and a logical step budget are checked. Evidence, not proof: only line/write boundaries are enumerated.",
+        text="Every line-boundary crash prefix of every corpus file up to 6000 lines (2000 seeded cuts for each of the five larger files) and of iodata-written files is enumerated (thorough) or sampled (quick), plus seeded storage faults (byte cuts, torn tails, lost/duplicated/swapped blocks and lines, bit flips, field overwrites, misnamed files); each faulted file is loaded through the real API on SimDisk and the outcome, the exception contract, line numbers, handle table, shapes and a logical step budget are checked. Evidence, not proof: only line/write boundaries are enumerated.",
         note="Trusts CPython's io stack and sys.monitoring, numpy, the storage-fault model (prefix/blocks), and the shape-relation table of the oracle."),
     "C08": dict(level="fault_enumeration", ref="DESIGN.md section 3 (C08)",
         technique="deterministic simulation: write-fault enumeration at every text/raw write and close on SimDisk, with pre-flight defect table",
-        text="For seeded workloads over all 13 dump_one, 4 dump_many formats and both input writers (x defect x format selection x target state x iterable kind x allow_changes) the fault-free run is recorded and an OSError is injected at every text-level write, every raw write and at close (thorough; seeded sample in quick); exception type, zero-touch of the target for pre-flight errors, byte identity under short writes, exactly-once pulls and the handle table are checked.",
+        text="For seeded workloads over all 13 dump_one, 4 dump_many formats and both input writers (x defect x format selection x target state x iterable kind x allow_changes) the fault-free run is recorded and an OSError is injected at every text-level write, every raw write and at close (thorough; seeded sample in quick); exception type, zero-touch of the target for pre-flight errors, byte identity under short writes, exactly-once pulls and the handle table are checked. The finite defect space (format x every subset of the declared required attributes x target state x frame index; incompatibility class x format x allow_changes x target state) is enumerated completely in both tiers; fault kinds include a persistent disk-full and the environment knob 'warnings as errors'.",
         note="Trusts CPython's TextIOWrapper/BufferedWriter (real), the SimRaw fault model, and the incompatibility table taken from the property's quantifier (two-sided oracle)."),
     "C09": dict(level="exploration", ref="DESIGN.md section 3 (C09)",
         technique="deterministic simulation: seeded histories of dumps with write faults and baton-scheduled threads sharing one object; deep snapshot oracle",
-        text="Seeded histories of 1-4 dumps / write_input calls of the same object (with and without write faults, with allow_changes) and 2-4 scheduler-interleaved threads dumping one shared object; a deep snapshot (hidden fields, array bytes, container identities, public view) must be unchanged after every call and each thread's bytes must equal the solo run.",
+        text="Seeded histories of 1-4 dumps / write_input calls of the same object (with and without write faults, with allow_changes) and 2-4 scheduler-interleaved threads dumping one shared object; a deep snapshot (hidden fields, array bytes, dict contents, public view) must be unchanged after every call and at every instant a concurrent observer thread looks, each thread's bytes must equal the solo run, the caller may edit the object between dumps, and successfully written wavefunction files are read back (electron count, spin polarisation).",
         note="Trusts the canonical-digest code; the wavefunction-equivalence clause is only checked on the objects the workload produces (density matrices, nelec, spinpol), not over its input domain."),
     "C11": dict(level="exploration", ref="DESIGN.md section 3 (C11)",
         technique="deterministic simulation (weakest fit): seeded operation histories with scheduler-interleaved observer reads against an executable reference model",
-        text="Seeded histories (1-12 operations) of constructions, assignments, clears and reads on IOData with an observer whose reads are interleaved by the seeded scheduler; invariants I1-I7 and a 40-line reference model are checked after every step.",
+        text="Seeded histories (1-12 operations) of constructions, assignments, clears and reads on IOData with an observer whose reads are interleaved by the seeded scheduler; invariants I1-I7 and a small reference model are checked after every step; bounded sub-spaces (constructions with <=1 argument x all operation sequences of depth <=2, <=2 arguments x depth <=1 in thorough) are enumerated completely; threaded runs execute 2-3 histories on distinct objects under the baton scheduler and must equal their solo runs.",
         note="No I/O, clock or thread in this property; the only simulated nondeterminism is where reads interleave with writes. Trusts the reference model."),
     "C12": dict(level="exploration", ref="DESIGN.md section 3 (C12)",
         technique="deterministic simulation (weakest fit): seeded operation histories on MolecularOrbitals/Shell with interleaved reads, invariant oracle",
-        text="Seeded histories of constructions and assignments on MolecularOrbitals and Shell objects with interleaved reads; the algebraic invariants of the statement are checked after every step, rejected operations must leave the object unchanged.",
+        text="Seeded histories of constructions and assignments on MolecularOrbitals and Shell objects with interleaved reads; the algebraic invariants of the statement are checked after every step, rejected operations must leave the object unchanged; restricted/unrestricted orbitals with 1-3 orbitals per spin x every occupation pattern of the alphabets x all assignment sequences up to depth 2-3 are enumerated completely.",
         note="Same framing as C11. Trusts the invariant formulas."),
     "C13": dict(level="fault_enumeration", ref="DESIGN.md section 3 (C13)",
         technique="deterministic simulation: instrumented producer/consumer histories over dump_many/load_many on SimDisk, crash-prefix enumeration at every line, single-field corruption",
@@ -46,7 +46,7 @@ CHECKS = {
         note="Trusts SimDisk, the canonical digest and the frame byte ranges taken from the write-event log."),
     "C16": dict(level="exploration", ref="DESIGN.md section 3 (C16)",
         technique="deterministic simulation: seeded call histories and baton-scheduled real threads pre-empted at sys.monitoring LINE events, differential against pristine-process outcomes + module-table digests",
-        text="A pool of API calls is executed in seeded orders/repetitions in one interpreter and interleaved from 2-16 real threads under a seeded scheduler (pre-emption at iodata line granularity and at seam calls); every outcome must equal the outcome of the same call alone in a pristine forked process and all module-level tables must keep their pristine digest.",
+        text="A pool of API calls is executed in seeded orders/repetitions in one interpreter and interleaved from 2-16 real threads under a seeded scheduler (pre-emption at iodata line granularity and at seam calls); every outcome must equal the outcome of the same call alone in a pristine forked process (cross-checked against really fresh interpreters) and all module-level tables must keep their pristine digest; memo caches and other scratch state are reset before every run and judged by outcomes; calls seen to write process-global state when run alone are interleaved pairwise with pre-emption right after every global store.",
         note="Trusts fork-of-pristine as 'fresh interpreter' (cross-checked against real fresh subprocesses in thorough), line-granularity pre-emption, warnings excluded from verdicts in threaded runs."),
     "C18": dict(level="exploration", ref="DESIGN.md section 3 (C18)",
         technique="deterministic simulation: differential CLI-vs-API runs under identical seeded input crash states and output write-fault plans (in-process main() and real subprocesses with seams installed via sitecustomize)",
